@@ -4946,12 +4946,12 @@ bool RemapCompareLess(FunctionRemap *in1, FunctionRemap *in2) {
     return in2->_const_method;
   }
 
-  if (in1->_parameters.size() != in2->_parameters.size()) {
-    return (in1->_parameters.size() > in2->_parameters.size());
-  }
-
-  int pcount = in1->_parameters.size();
-  for (int x = 0; x < pcount; x++) {
+  // Compare the parameters the two have in common first: when overloads with
+  // default arguments are collapsed into one set, the more specific type
+  // (eg. a derived class, or int before double) must still be tried first,
+  // whichever of the two overloads has more parameters.
+  size_t pcount = std::min(in1->_parameters.size(), in2->_parameters.size());
+  for (size_t x = 0; x < pcount; x++) {
     CPPType *orig_type1 = in1->_parameters[x]._remap->get_orig_type();
     CPPType *orig_type2 = in2->_parameters[x]._remap->get_orig_type();
 
@@ -4960,6 +4960,10 @@ bool RemapCompareLess(FunctionRemap *in1, FunctionRemap *in2) {
     if (pd1 != pd2) {
       return (pd1 > pd2);
     }
+  }
+
+  if (in1->_parameters.size() != in2->_parameters.size()) {
+    return (in1->_parameters.size() > in2->_parameters.size());
   }
 
   // ok maybe something to do with return strength..
